@@ -18,13 +18,30 @@ COMPONENTS = {
 }
 ASSUMPTIONS = ['needles of >= 10 bytes; shorter file names are covered by the fixed path component every recorded path contains',
                'algorithm settings in config are public by design']
-PROBES = ['delete', 'clean', 'nonces', 'needles']
+PROBES = ['delete', 'clean', 'nonces', 'needles', 'exists_lied']
 TIERS = {'quick': {'budget_s': 70, 'batch': 10}, 'thorough': {'budget_s': 900, 'batch': 20}}
 ORACLES = ('store', 'secrecy')
 
 
 def gen_case(seed, tier):
-    return history.gen_history(seed, 'c05', encrypted=True, nops=(3, 9), destructive=True, reads=False)
+    import base64
+    from sim.core import substream
+    case = history.gen_history(seed, 'c05', encrypted=True, nops=(3, 9), destructive=True, reads=False)
+    rng = substream(seed, 'c05-extra')
+    if rng.random() < 0.5:
+        # an eventually consistent backend: exists() may deny an object that was just stored
+        case['exists_lies_p'] = rng.choice([0.05, 0.2, 0.5])
+    if rng.random() < 0.4:
+        # the same block twice in one stream, far apart (fixed-size chunks so that both copies are whole chunks)
+        mx = rng.choice([16, 32, 64])
+        case['settings']['chunking'] = {'min_length': mx, 'max_length': mx}
+        block = rng.randbytes(mx)
+        k = rng.choice([12, 25, 45])
+        body = block + b''.join(rng.randbytes(mx) for _ in range(k)) + block + rng.randbytes(rng.randrange(0, mx))
+        case['contents'][rng.randrange(len(case['contents']))] = base64.b64encode(body).decode()
+        for u in case['users']:
+            u['N'] = rng.choice([1, 1, 2])
+    return case
 
 
 def run_case(case):
